@@ -47,7 +47,10 @@ Inductive body_sink :=
 | SinkReadAll.     (* io.ReadAll(body): starts with 512 bytes, grows (at most doubling) when full *)
 
 (* what harness/cmd/translate bodysinks finds in the source: one of the two modelled sinks, or something else *)
-Inductive sink_use := UseSink (k : body_sink) | UseOther (callee : string).
+Inductive sink_use :=
+| UseSink (k : body_sink)
+| UseHeaders                 (* httputil.DumpResponse(res, false): status line and headers, the body is not touched *)
+| UseOther (callee : string).
 
 Definition discard_buf : Z := 32768.
 
